@@ -605,6 +605,24 @@ m("nextvisit-discard-fast-path", "TAB-NEXTVISIT", ["C20"], "break", PR,
   "\tfor in.Next() {\n\t\tp.idx++\n", "\tfor in.Next() {\n\t\tp.idx++\n\t\tif p.format == \"none\" {\n\t\t\tcontinue\n\t\t}\n", "Next on", True,
   "with -f none the values are skipped, not validated: invalid Ion inside a container goes unreported (two independent seeded changes)")
 
+m("danglebin-end-without-looking", "ORD-DANGLE-BIN", ["C03", "C07"], "break", BS,
+  "\t\t\tif cur.code == bitcodeStruct && b.state == bssBeforeValue {\n\t\t\t\t// A field name was read and the struct ends before its value.\n\t\t\t\treturn &SyntaxError{\"field name without a value at the end of a struct\", b.pos}\n\t\t\t}\n", "", "end of container", True,
+  "DE 81 84 reads as an empty struct (F38)")
+m("utf8-text-not-validated", "TAB-UTF8", ["C02", "C07"], "break", TK,
+  "\t\tif !utf8.ValidString(str) {\n\t\t\treturn \"\", &SyntaxError{\"text is not valid UTF-8\", t.pos}\n\t\t}\n", "\t\t_ = utf8.RuneError\n", "string text validated", True,
+  "raw invalid bytes in a text string are handed on (F39)")
+m("lstclean-finish-clears-late", "ORD-LSTCLEAN", ["C11", "C12"], "break", BW,
+  "\tw.clear()\n\tw.wroteLST = false\n\n\tseq := w.bufs.peek()", "\tdefer w.clear()\n\tw.wroteLST = false\n\n\tseq := w.bufs.peek()", "symbol table written", True,
+  "an annotation pending at Finish is written in front of $ion_symbol_table (two independent seeded changes)")
+m("bsscratch-reused-bigint", "OWN-BSSCRATCH", ["C03", "C08"], "break", BS,
+  "\tcode bitcode\n\tnull bool\n\tlen  uint64\n}", "\tcode bitcode\n\tnull bool\n\tlen  uint64\n\n\tbigint big.Int\n}", "field bigint", True,
+  "ReadInt hands out one big.Int for every big integer",
+  more=[("\t\ti := new(big.Int).SetBytes(bs)\n\t\tisZero = i.BitLen() == 0", "\t\ti := b.bigint.SetBytes(bs)\n\t\tisZero = i.BitLen() == 0")])
+m("overrun-sorted-struct-path", "TAB-OVERRUN", ["C03", "C06"], "break", BS,
+  "\tpos := b.pos\n\trem := b.remaining()\n", "", "decoded length", False,
+  "the budget is measured before the sorted struct's length field is read",
+  more=[("\tlengthIsNibble := true\n", "\tpos := b.pos\n\trem := b.remaining()\n\tlengthIsNibble := true\n")])
+
 os.makedirs(os.path.dirname(os.path.abspath(__file__)), exist_ok=True)
 with open(os.path.join(os.path.dirname(os.path.abspath(__file__)), "core.json"), "w") as f:
     json.dump(M, f, indent=1)
